@@ -25,6 +25,8 @@ package main
 import (
 	"context"
 	"fmt"
+	"github.com/buildbarn/bb-storage/pkg/blobstore/local"
+	"github.com/buildbarn/bb-storage/pkg/digest"
 	"strings"
 	"time"
 
@@ -224,6 +226,22 @@ func body(sc scenario) func() {
 			}
 		}
 
+		// ---- the last state file's write offsets cover every acknowledged upload still held (flat CAS keys) ----
+		if n := len(s.StateStore.Written); n > 0 && !sc.shutdown {
+			last := s.StateStore.Written[n-1]
+			for _, a := range acks {
+				s.Lock.RLock()
+				loc, err := s.KLM.Get(local.NewKeyFromString(a.Obj.Digest.GetKey(digest.KeyWithoutInstance)))
+				s.Lock.RUnlock()
+				if err != nil || loc.BlockIndex >= len(last.Blocks) {
+					continue
+				}
+				if end := loc.OffsetBytes + loc.SizeBytes; last.Blocks[loc.BlockIndex].WriteOffsetBytes < end {
+					failf("acknowledged-upload-beyond-persisted-write-offset", "at quiescence the last state file records write offset %d for the block that holds upload %s at [%d,%d): after a restart that space would be handed out again", last.Blocks[loc.BlockIndex].WriteOffsetBytes, a.Obj.Name, loc.OffsetBytes, end)
+				}
+			}
+		}
+
 		// ---- latency: first covering state file ----
 		if !sc.early {
 			for _, a := range acks {
@@ -300,7 +318,7 @@ func main() {
 		{name: "rotation", uploads: [][]string{{"C8", "F8", "G8", "H8"}}, spare: 1},
 		{name: "rotation-two-uploaders", uploads: [][]string{{"C8", "F8"}, {"G8", "H8"}}, spare: 1},
 		{name: "rotation-twice", uploads: [][]string{{"C8", "F8", "G8", "H8", "I8"}}, spare: 2},                        // a second release while the state write for the first is in flight
-		{name: "after-restart", pre: []string{"P1", "E1", "Q1"}, uploads: [][]string{{"D3"}}, spare: 1}, // three committed epochs on two restored blocks (more epochs than blocks); the upload lands in a restored block
+		{name: "after-restart", pre: []string{"P1", "E1", "Q1"}, uploads: [][]string{{"D3"}}, spare: 1},                // three committed epochs on two restored blocks (more epochs than blocks); the upload lands in a restored block
 		{name: "upload-during-sync", uploads: [][]string{{"A3", "@sync", "D4"}}, spare: 1, dataGates: true},            // D4 lands in A3's block and is finalized while the sync covering A3 is in flight
 		{name: "rotation-failed-uploads", uploads: [][]string{{"C8", "F8!", "G8", "A3!", "H8", "I8", "C8"}}, spare: 4}, // aborted uploads into blocks that are later released
 		{name: "rotation-nospare", uploads: [][]string{{"C8", "F8", "G8", "H8", "I8"}}, spare: 0},
